@@ -567,8 +567,10 @@ func c06Cache(w *World, r *Report, id, slug string) {
 				return
 			}
 			ob.Site(in.Pos(), "writer of cache.buffer: "+FnName(fn))
-			if fn.Name() != "newCache" && fn.Name() != "makeRoomAndAppend" {
-				ob.Violate("buffer-writer@"+FnName(fn), in.Pos(), "the cache buffer is written outside its constructor and append helper")
+			// the constructor and the cache's own put path (put and its append helper)
+			isOwn := fn.Name() == "newCache" || fn.Name() == "makeRoomAndAppend" || (fn.Name() == "put" && fn.Signature.Recv() != nil && types.Identical(deref(fn.Signature.Recv().Type()), cacheT))
+			if !isOwn {
+				ob.Violate("buffer-writer@"+FnName(fn), in.Pos(), "the cache buffer is written outside its constructor and its put path")
 			}
 		})
 	}
